@@ -226,7 +226,13 @@ class MoveMethod:
         if self._is_host_used():
             result = "self"
         definition_info = functionutils.DefinitionInfo.read(self.pyfunction)
-        others = definition_info.arguments_to_string(1)
+        # pass the parameters themselves, not the text of their default values
+        passed = [name for name, _default in definition_info.args_with_defaults[1:]]
+        if definition_info.args_arg is not None:
+            passed.append("*" + definition_info.args_arg)
+        if definition_info.keywords_arg:
+            passed.append("**" + definition_info.keywords_arg)
+        others = ", ".join(passed)
         if others:
             if result:
                 result += ", "
